@@ -3,6 +3,7 @@ CONSTANTS
   MaxB = 1
   WithInit = TRUE
   CanonInit = TRUE
+  SelfEdgeChecked = TRUE
   EmitCases = FALSE
 INIT Init
 NEXT Next
